@@ -127,3 +127,11 @@ Definition mir_nan (k : kind) (z : Z) : bool :=
 
 (* the instruction semantics the reference engine runs with *)
 Definition mir_isem : insn_sem := MkInsnSem mir_val mir_br int_ovf mir_nan.
+
+(* for integer opcodes the engine runs exactly [int_val] / [int_br] *)
+Lemma mir_val_int : forall o ks kd xs, val_op o = Some (ks, kd) -> fp_kind ks || fp_kind kd = false ->
+  mir_val o xs = int_val o xs.
+Proof. intros o ks kd xs H1 H2. unfold mir_val. now rewrite H1, H2. Qed.
+
+Lemma mir_br_int : forall o k xs, br_op o = Some k -> fp_kind k = false -> mir_br o xs = int_br o xs.
+Proof. intros o k xs H1 H2. unfold mir_br. now rewrite H1, H2. Qed.
